@@ -23,7 +23,7 @@ TIERS = {
 }
 RULE = ('case = frame spec (1-4 columns drawn from 25 recognised column kinds, null pattern none/one/two/many/all, '
         '0-60 rows, hostile field names) x rex off/on x transport dict/file x verify/detect x repair on/off; the '
-        'first cases of every shard iterate kinds x null patterns. Non-trivial = at least one constraint beyond '
+        'first cases of every shard iterate kinds x null patterns; plus big string columns (>4000 distinct) and frames with runs of 1000+ nulls. Non-trivial = at least one constraint beyond '
         '`type` was discovered; distinct = fingerprint of spec + configuration.')
 ASSUMPTIONS = [
     "recognised types = the list in the property's quantifier; pandas-3 `str` and `string` extension columns are generated only as an extra, separately reported class",
